@@ -1,5 +1,5 @@
 """Non-cluster part of C21 (standalone-with-replicas and sentinel clients): commands reach replicas only when the
-caller opted in.  checks/c21.py (cluster family) calls run(ctx); `bin/check C21_nocluster` runs it alone."""
+caller opted in.  checks/c21.py (cluster family) runs run(ctx) beside the cluster part; `bin/check C21_nocluster` runs it alone."""
 import os, threading
 from checks import sentinelcommon as sc
 LEVEL = 'model_checking'
